@@ -132,11 +132,18 @@ def run_case(R, kind, cap, off, n, r, cross):
             R.fail("copy_to_native:source-changed", f"{kind}.copy_to_native changed the source buffer", ctx)
         R.tags["copy_to_native"] += 1
     # ---- update_from_buffer (bytes, bytearray, memoryview, ndarray.data)
-    for form in ("bytes", "bytearray", "memoryview", "npdata"):
+    for form in ("bytes", "bytearray", "memoryview", "npdata", "npdata16", "npdata64", "memoryview32"):
+        # typed views (items wider than a byte): "numpy array.data" of the docstring - len() of those counts items, not bytes
+        width = {"npdata16": 2, "npdata64": 8, "memoryview32": 4}.get(form, 1)
+        if n % width or (width > 1 and n == 0):
+            continue
         b, before = mk_buffer(kind, cap, r)
         src = bytes(r.randrange(1, 256) for _ in range(n))
-        arg = {"bytes": src, "bytearray": bytearray(src), "memoryview": memoryview(src),
-               "npdata": np.frombuffer(src, dtype="uint8").copy().data}[form]
+        arg = {"bytes": lambda: src, "bytearray": lambda: bytearray(src), "memoryview": lambda: memoryview(src),
+               "npdata": lambda: np.frombuffer(src, dtype="uint8").copy().data,
+               "npdata16": lambda: np.frombuffer(src, dtype="int16").copy().data,
+               "npdata64": lambda: np.frombuffer(src, dtype="float64").copy().data,
+               "memoryview32": lambda: memoryview(src).cast("I")}[form]()
         ctx = dict(ctx0, prim="update_from_buffer", args=(off, form, src.hex()))
         ok, _ = call(R, "update_from_buffer", kind, lambda: b.update_from_buffer(off, arg), ctx)
         if ok:
